@@ -13,6 +13,10 @@ package generator
 //@ func NewFileManager(log backend.LogFunc) *FileManager
 //@   ensures wfFM(result) && fresh(result) && len(result.files) == 0
 
+// lastNamed: `last` is the (current, i.e. possibly renamed) name of the nearest named item before position i, and only
+// name-less items lie between -- "the content will be appended to the file specified by the last Generated".
+//@ pure func lastNamed(files []*plugin.Generated, i int, last string) bool { return exists b int :: 0 <= b && b < i && files[b].Name != nil && last == *files[b].Name && forall c int :: b < c && c < i ==> files[c].Name == nil }
+
 //@ func (fm *FileManager) Feed(src string, files []*plugin.Generated) error
 //@   requires wfFM(fm) && freshInput(fm, files)
 //@   ensures wfFM(fm)
@@ -22,7 +26,10 @@ package generator
 //@   ensures forall k int :: old(len(fm.files)) <= k && k < len(fm.files) ==> exists a int :: 0 <= a && a < len(files) && fm.files[k] == files[a]
 //@   ensures len(files) > 0 && old(files[0].Name) == nil ==> result != nil
 //@   modifies fm.files, contents(fm.index), contents(fm.patch), contents(fm.count), plugin.Generated.Name
+//@   site assign:fm.patch[last] assert lastNamed(files, i, last)
 //@   loop 1 invariant wfFM(fm) && 0 <= i && i <= len(files)
+//@   loop 1 invariant forall c int :: 0 <= c && c < i && old(files[c].Name) == nil ==> files[c].Name == nil
+//@   loop 1 invariant i < len(files) && files[i].Name == nil && last != "" ==> lastNamed(files, i, last)
 //@   loop 1 invariant last == "" || inDom(fm.index, last)
 //@   loop 1 invariant i == 0 ==> last == ""
 //@   loop 1 invariant i > 0 ==> old(files[0].Name) != nil
